@@ -2,6 +2,7 @@
 # tools/replay_seeded.sh [jobs]: re-apply every seeded change (seeded/*/patch.diff) to a scratch worktree of /repo's HEAD and
 # run the quick check of its property against it; writes seeded/LAST_REPLAY.md. /repo itself is not touched.
 jobs=${1:-4}
+only=${2:-}          # optional: file with the names of the seeded changes to replay (the table is then appended to the last one)
 cd "$(dirname "$0")/.."
 out=seeded/LAST_REPLAY.md
 tmp=$(mktemp -d /tmp/replay_seeded.XXXX)
@@ -32,9 +33,9 @@ export -f one; export tmp PWD
   echo
   echo "| seeded change | property | result |"
   echo "|---|---|---|"
-  ls -d seeded/*/ | sed 's:/$::' | xargs -P $jobs -I{} bash -c 'one {}' | sort
+  if [ -n "$only" ]; then sed 's:^:seeded/:' "$only"; else ls -d seeded/*/ | sed 's:/$::'; fi | xargs -P $jobs -I{} bash -c 'one {}' | sort
 } > $out.tmp
-mv $out.tmp $out
+if [ -n "$only" ]; then { echo; echo "## later additions, replayed separately"; echo; cat $out.tmp; } >> $out; rm -f $out.tmp; else mv $out.tmp $out; fi
 find replays -name "*.json" -newer $tmp -delete 2>/dev/null
 rm -rf $tmp
 git -C /repo worktree prune
